@@ -1,3 +1,4 @@
+CONSTANT AsFoundFold = FALSE
 INIT Init
 NEXT Next
 CHECK_DEADLOCK FALSE
